@@ -37,6 +37,7 @@ type forcedEnv struct {
 	snaps   map[string]string // label -> path of a copy of the file at that committed version
 	states  map[string]RefState
 	notes   []string
+	padOnly bool // seedPoints leaves free pages without freeing node ids
 }
 
 type searchOut struct {
@@ -104,6 +105,28 @@ func (e *forcedEnv) seedPoints(n int) {
 		}
 	}
 	flush()
+	if e.padOnly {
+		// the same (see below) without freeing node ids: the shard hands out freed node ids in Go
+		// map order, and the families that compare the file with a sequential reference record by
+		// record need the node id of an inserted point to be determined
+		db := e.sh.VerifDB()
+		for _, put := range []bool{true, false} {
+			err := db.Write(func(bm diskstore.BucketManager) error {
+				b, err := bm.Get(shard.INTERNALBUCKETNAME)
+				if err != nil {
+					return err
+				}
+				if put {
+					return b.Put([]byte("verifPad"), []byte(strings.Repeat("p", 160000)))
+				}
+				return b.Delete([]byte("verifPad"))
+			})
+			if err != nil {
+				panic(err)
+			}
+		}
+		return
+	}
 	// Leave free pages in the file: a forced schedule parks a reader inside an open read
 	// transaction while a writer commits; bbolt cannot remap a growing file while a read
 	// transaction is open, so the writer's batch must fit into pages that are already free.
@@ -287,6 +310,7 @@ func runForced(family string, dir string, seed uint64) forcedResult {
 	e := newForcedEnv(dir, seed, degree)
 	n := 150 + e.rng.Intn(100)
 	e.open(-1)
+	e.padOnly = fam == "coldrace" || fam == "wfailq" || fam == "wokq" || fam == "wfailr"
 	e.seedPoints(n)
 	// cold start: reopen with a fresh cache manager
 	if err := e.sh.Close(); err != nil {
@@ -694,7 +718,7 @@ func runForced(family string, dir string, seed uint64) forcedResult {
 		}()
 		res.Threads = append(res.Threads, tr)
 	default:
-		panic("unknown family " + family)
+		e.runCacheFamily(fam, variant, n, &res)
 	}
 	res.UAC = e.hub.uacN.Load()
 	res.UACFirst = e.hub.uacFirst
